@@ -103,13 +103,14 @@ theorem Inv.resetTimed (h : Inv jid U NR p c) : Inv jid U NR p (resetTimed c) :=
 
 /-! ### queueing -/
 
-theorem InvH.mono {x y st sec smE smR pst rp oh raw hk ik tk n g} (n' : Nat)
-    (h : InvH x y st sec smE smR pst rp oh raw hk ik tk n g) (hn : n ≤ n') :
-    InvH x y st sec smE smR pst rp oh raw hk ik tk n' g :=
+theorem InvH.mono {x y xs mb st sec smE smR pst rp oh raw hk ik tk n g} (n' : Nat)
+    (h : InvH x y xs mb st sec smE smR pst rp oh raw hk ik tk n g) (hn : n ≤ n') :
+    InvH x y xs mb st sec smE smR pst rp oh raw hk ik tk n' g :=
   { h with uidH := fun k a => Nat.lt_of_lt_of_le (h.uidH k a) hn,
            uidT := fun k a => Nat.lt_of_lt_of_le (h.uidT k a) hn,
            uidX := fun u a => Nat.lt_of_lt_of_le (h.uidX u a) hn,
-           uidY := fun u a => Nat.lt_of_lt_of_le (h.uidY u a) hn }
+           uidY := fun u a => Nat.lt_of_lt_of_le (h.uidY u a) hn,
+           mbN := Nat.le_trans h.mbN hn }
 
 theorem eok_req (s : Snap) : EOk jid U NR .req .smStrophe s :=
   ⟨fun e => (by cases e), fun _ => trivial⟩
@@ -276,20 +277,26 @@ theorem Phase.mono {g g' : Ghost} {sec smE smR smE' smR' : Bool} {st st' : CStat
   · exact ⟨h.1, hb h.2.1, he' h.2.2⟩
 
 /-- phase-compatible change of the machine fields (no handler is touched) -/
-theorem InvH.weaken {x y st sec smE smR pst rp oh raw hk ik tk n g}
-    (h : InvH x y st sec smE smR pst rp oh raw hk ik tk n g)
+theorem InvH.weaken {x y xs mb st sec smE smR pst rp oh raw hk ik tk n g}
+    (h : InvH x y xs mb st sec smE smR pst rp oh raw hk ik tk n g)
     {st' : CState} {smE' smR' raw' : Bool} {g' : Ghost}
     (ha : g'.authOk = g.authOk) (hn : g'.notifiedConnect = g.notifiedConnect)
     (hb : g.bound = true → g'.bound = true) (hr : g.resumed = true → g'.resumed = true)
     (he : smE' = true → smE = true)
     (hsm : st' ≠ .disconnected → st ≠ .disconnected ∧ (smR' = false → smR = false))
-    (hcg : st' = .connecting → st = .connecting) (hrw : raw' = true → raw = true) :
-    InvH x y st' sec smE' smR' pst rp oh raw' hk ik tk n g' := by
+    (hcg : st' = .connecting → st = .connecting) (hrw : raw' = true → raw = true)
+    (hlv : st' = .disconnected → st = .disconnected ∨
+      ∀ k ∈ hk ++ ik, negK k → x ≠ some k.1 → mb ≤ k.1) :
+    InvH x y xs mb st' sec smE' smR' pst rp oh raw' hk ik tk n g' := by
   have he' : smE = false → smE' = false := by
     intro e; cases h' : smE' with
     | false => rfl
     | true => rw [he h'] at e; cases e
-  refine { h with phase := ?_, ohOk := ?_, fr := ?_, t1 := ?_, cgH := ?_, raw := ?_ }
+  refine { h with phase := ?_, ohOk := ?_, fr := ?_, t1 := ?_, cgH := ?_, raw := ?_, lv := ?_ }
+  rotate_right
+  · intro hd; rcases hlv hd with a | a
+    · exact h.lv a
+    · exact a
   · intro k a s hs hs' e; have := h.phase k a s hs hs' e
     exact ⟨by rw [hn]; exact this.1, this.2.mono ha hb hr he hsm⟩
   · rw [ha]; exact h.ohOk
@@ -301,8 +308,8 @@ theorem InvH.weaken {x y st sec smE smR pst rp oh raw hk ik tk n g}
 
 /-- arbitrary change of the machine fields while no negotiation handler (besides the running one)
     and no `missingFeatures` timer is pending -/
-theorem InvH.change {x y st sec smE smR pst rp oh raw hk ik tk n g}
-    (h : InvH x y st sec smE smR pst rp oh raw hk ik tk n g)
+theorem InvH.change {x y xs mb st sec smE smR pst rp oh raw hk ik tk n g}
+    (h : InvH x y xs mb st sec smE smR pst rp oh raw hk ik tk n g)
     (hnil : ∀ k ∈ hk ++ ik, negK k → x = some k.1)
     (hnt : ∀ k ∈ tk, k.2.1 = .missingFeatures → y = some k.1)
     {st' : CState} {sec' smE' smR' : Bool} {pst' : PSt} {rp' : Bool} {oh' : OpenH} {raw' : Bool} {g' : Ghost}
@@ -311,8 +318,9 @@ theorem InvH.change {x y st sec smE smR pst rp oh raw hk ik tk n g}
     (hfr : rp' = true ∨ pst' = .fresh → oh' ≠ .stub → g'.notifiedConnect = false ∧ smE' = false)
     (hcg : st' = .connecting → ∀ k ∈ hk ++ ik, ¬ negK k)
     (hraw : st' ≠ .disconnected → raw' = true → oh' = .stub ∧ ∀ k ∈ hk ++ ik, ¬ negK k) :
-    InvH x y st' sec' smE' smR' pst' rp' oh' raw' hk ik tk n g' := by
-  refine { h with one := ?_, phase := ?_, ohOk := hoh, fr := ?_, t1 := ?_, cgH := hcg, raw := hraw }
+    InvH x y xs mb st' sec' smE' smR' pst' rp' oh' raw' hk ik tk n g' := by
+  refine { h with one := ?_, phase := ?_, ohOk := hoh, fr := ?_, t1 := ?_, cgH := hcg, raw := hraw,
+                  lv := fun _ k a nk e => absurd (hnil k a nk) e }
   · intro k1 a1 _ _ n1 _ e1 _; exact absurd (hnil k1 a1 n1) e1
   · intro k a s hs hs' e; exact absurd (hnil k a ⟨s, hs, hs'⟩) e
   · intro hf; exact ⟨hnil, hfr hf⟩
@@ -414,7 +422,9 @@ theorem resetSm_spec (c : Conn) : ∃ S B, resetSmForReconnect c = { c with sm :
   dsimp only
   split <;> exact ⟨_, _, rfl, rfl, rfl, rfl, rfl, rfl⟩
 
-theorem Inv.connDisconnect (h : Inv jid U NR p c) : Inv jid U NR p (connDisconnect c) := by
+theorem Inv.connDisconnect (h : Inv jid U NR p c)
+    (hd : ∀ k ∈ c.handlers.map hkey ++ c.idHandlers.map hkey, negK k → p.x ≠ some k.1 → p.mb ≤ k.1) :
+    Inv jid U NR p (connDisconnect c) := by
   unfold Conn.connDisconnect
   split
   · exact h
@@ -436,7 +446,7 @@ theorem Inv.connDisconnect (h : Inv jid U NR p c) : Inv jid U NR p (connDisconne
               nn1 := (fun a => nomatch a), nn2 := fun a => absurd rfl a, smE := (fun a => nomatch a) }
     · rw [h1, h3]
       exact h.h.weaken rfl rfl id id (fun a => nomatch a) (fun a => absurd rfl a) (fun a => nomatch a)
-        (fun a => nomatch a)
+        (fun a => nomatch a) (fun _ => Or.inr hd)
     · exact ⟨Or.inr rfl, h.f.ps, (fun a => nomatch a), h.f.rpB, (fun _ a => nomatch a)⟩
 
 /-! ### composite primitives -/
